@@ -250,6 +250,9 @@ pub struct ConstDecl {
     pub name: String,
     pub ty: Ty,
     pub value: E,
+    /// declared `const k: Data = <value of type ty>`: the annotation is an accepted up-cast; such
+    /// a constant is only ever used where Data is expected
+    pub as_data: bool,
 }
 
 #[derive(Clone, Debug, Default)]
@@ -596,6 +599,21 @@ impl<'a> Printer<'a> {
                 self.out.push('}');
             }
             E::Let(..) | E::Expect(..) | E::ExpectData(..) | E::Trace(..) => self.braces(e, n),
+            E::ToData(x, _) if matches!(&**x, E::Const(k) if self.m.consts.iter().any(|c| c.as_data && c.name == *k)) => {
+                // a constant declared with a `Data` annotation is used as Data directly
+                self.fresh += 1;
+                let v = format!("up{}", self.fresh);
+                self.out.push_str("{\n");
+                self.ind(n + 1);
+                self.out.push_str(&format!("let {v}: Data = "));
+                self.expr(x, n + 1);
+                self.out.push('\n');
+                self.ind(n + 1);
+                self.out.push_str(&v);
+                self.out.push('\n');
+                self.ind(n);
+                self.out.push('}');
+            }
             E::ToData(x, from) => {
                 // the source type is pinned by an annotated binding first: an up-cast of e.g. `[]`
                 // or `None` would otherwise leave the element type (and with it the Data
@@ -843,7 +861,7 @@ impl<'a> Printer<'a> {
             self.out.push_str("}\n\n");
         }
         for c in &m.consts {
-            let ts = self.ty(&c.ty);
+            let ts = if c.as_data { "Data".to_string() } else { self.ty(&c.ty) };
             self.out.push_str(&format!("pub const {}: {ts} = ", c.name));
             self.arg(&c.value, 0);
             self.out.push_str("\n\n");
